@@ -76,6 +76,19 @@ def _observe(R, what, t, sink):
     T = R.trees
     if what in ('export', 'tigerxml', 'terminals'):
         getattr(R.treeoutput, what)(t, sink)
+    elif what == 'bracketstry':
+        # an attempt to write the tree in bracket format (refused or skipped
+        # when it is discontinuous).  The bracket writers replace bracket
+        # characters in the node data, as documented: only for trees without
+        # such characters is the attempt a mere look
+        if not any(c in str(n.data.get(f) or '') for n in T.preorder(t)
+                   for f in ('word', 'label', 'lemma', 'morph', 'edge')
+                   for c in T.BRACKETS):
+            for kw in ({}, {'brackets_skipdisco': True}):
+                try:
+                    R.treeoutput.brackets(t, sink, **kw)
+                except ValueError:
+                    pass
     elif what == 'numbering':
         R.treeoutput.compute_export_numbering(t)
     elif what == 'analysis':
@@ -295,6 +308,10 @@ def execute(R, op, tmp, opened=None):
             return [rc, outs]
         raise ValueError('unknown op kind %r' % k)
     except Exception as e:
+        if k == 'trans' and 'tfile' in op:
+            # a terminal file that is refused is refused every time; how (the
+            # first time ValueError, later the missing table) is not output
+            return ['EXCEPTION', 'refused']
         return ['EXCEPTION', type(e).__name__]
     finally:
         if opened is not None:
